@@ -1101,12 +1101,14 @@ def engine_crash(pid, tier):
                 raise ToolError("the crash history does not run cleanly without a crash: " + json.dumps([e["resp"] for e in events if e["ev"] == "Ack"])[:500])
             shutil.rmtree(d0, ignore_errors=True)
             # ---- (0) the recorded file-system calls must be a behaviour of the WAL protocol model
-            wev, wst = cp.wal_events(ops, events)
+            wev, wst = cp.wal_events(ops, events, max_pages=100000)
             wfile = os.path.join(wd, f"{hname}-wal.ndjson")
             with open(wfile, "w") as wf:
                 for e_ in wev:
                     wf.write(json.dumps(e_) + "\n")
-            wout = tlc("TraceWal.tla", os.path.join(SPEC, "TraceWal.cfg"), workers=1, timeout=900, env={"TRACE": wfile}, heap="2g",
+            wcfg = write_cfg(f"wal_{os.getpid()}_{hname}.cfg", open(os.path.join(SPEC, "TraceWal.cfg")).read().replace(
+                "Pages = {" + ",".join(str(i) for i in range(1, 41)) + "}", "Pages = {" + ",".join(str(i) for i in range(1, max(2, wst["pages"]) + 1)) + "}"))
+            wout = tlc("TraceWal.tla", wcfg, workers=1, timeout=1800, env={"TRACE": wfile}, heap="4g",
                        java_opts="-Xss1g", gc="-XX:+UseSerialGC")
             mres = re.search(r'<<"WALRESULT", (\d+), (\d+), (.*)>>', wout)
             wal_ok = bool(mres) and int(mres.group(1)) == int(mres.group(2)) + 1 and "is violated" not in wout
@@ -1125,8 +1127,14 @@ def engine_crash(pid, tier):
             pre_found += wal_findings
             stats[hname].update(iocalls=ncalls, requests=sum(1 for e in events if e["ev"] == "Ack"),
                                 op_counts=dict(collections.Counter(o["op"] for o in ops)))
-            stride = 1 if (tier == "thorough" or ncalls <= 700) else 2
-            ks = list(range(1, ncalls + 1, stride))
+            # every call is a crash point; very long histories (MiB payloads = thousands of page writes) are strided,
+            # but the first call of every request and the call right after its acknowledgement always stay
+            cap = 700 if tier == "quick" else 900
+            stride = max(1, -(-ncalls // cap))
+            ks = sorted(set(range(1, ncalls + 1, stride)) | set(e["io0"] + 1 for e in events if e.get("ev") == "Intent")
+                        | set(e["io1"] + 1 for e in events if e.get("ev") == "Ack"))
+            ks = [k for k in ks if 1 <= k <= ncalls]
+            stats[hname]["crash_point_stride"] = stride
             # images are produced, recovered by the real code in fresh processes, and deleted in bounded batches
             state = dict(run=run, n=0, sample=None)
 
